@@ -10,6 +10,12 @@ CHECKS = {
     text="Every (carrier, value, restriction set) triple in an exhaustive small-bound sweep (all subsets of the numeric facets, of the length facets and of an enumeration pool, all integer carriers with their extremes, multi-byte strings) and tens of thousands of proptest-generated full-range triples with Option/Vec nesting are run through the helper source compiled unmodified from /repo and compared with an independent facet specification. Disagreements are minimised to their cause and shrunk. Held = no disagreement on anything explored; not a proof for all i32 bounds.",
     note="Trusted: the harness's facet specification (c06.rs spec_leaf), rustc. Text that is a decimal/float/padded numeral under numeric facets is generated but not judged.",
     design="DESIGN.md section 4 C06"),
+ "C15": dict(
+    category="fault_enumeration",
+    technique="fault injection enumerated over every write call of the sink (fail-once and dead-sink modes, rotated error kinds, Interrupted, short writes) with an Err/Ok/panic oracle and byte comparison",
+    text="For every repository schema/WSDL that reads and hand-written sets that hit every emitter, the number N of write calls is counted and a fault is injected at every call index (stride-sampled only for documents above 20000 calls in the quick tier; thorough enumerates all). write_xml must return an I/O error, never Ok, never panic; Interrupted must be retried transparently; short-writing sinks must receive byte-identical output.",
+    note="Trusted: std::io::Write::write_all semantics; the corpus is what the repository ships plus the mini sets (a writer reached only by other inputs is not exercised).",
+    design="DESIGN.md section 4 C15"),
 }
 
 NOT_YET = {
